@@ -30,7 +30,7 @@ func VerifC14_AcceptDuringOpenIsNotTimedOut() {
 		resp := verifArbitraryResponse("accept")
 		zz.Assume(resp.MessageType == uint64(types.NewMessage) && resp.RequestAccepted && !resp.Paused)
 		zz.Assume(resp.EmptyVoucherResult() && resp.VoucherResultPtr == nil)
-		resp.TransferId = uint64(tid)
+		zz.SetInt(&resp.TransferId, uint64(tid))
 		_ = f.rcv.receiveResponse(ctx, other, resp)
 	}
 	var chid datatransfer.ChannelID
